@@ -35,6 +35,15 @@ def run(pid, tier, args):
                 GG.random_inputs(g, rng, 40 if quick else 150, 8, seen)
                 GG.add_input(g, "a # b", seen) if False else None
                 gs.append(g)
+            # a grammar with a construct the library treats as a grammar bug (an alternative that can be accepted without consuming
+            # input): every entry point must treat it the same way (all panic, or all return the same error)
+            cap = lambda f, fk, kid: {"op": "cap", "f": f, "fk": fk, "kid": kid}
+            gb = P.mk_grammar("bug0", [("P0", {"op": "seq", "kids": [GG.lit("("), {"op": "grp", "mode": "once", "kid": {"op": "alt", "kids": [{"op": "grp", "mode": "opt", "kid": cap("A", "string", GG.ref("Ident"))}, cap("B", "string", GG.ref("Int"))]}}, GG.lit(")")]},
+                                        [P.F("A", "string"), P.F("B", "string")])], ks=(1, -1))
+            seen = set()
+            for s_ in ("( 1 )", "( a )", "( )", "( 1", "1"):
+                GG.add_input(gb, s_, seen)
+            gs.append(gb)
         byid = {g["id"]: g for g in gs}
         cp = os.path.join(wd, "cases.json")
         json.dump(gs, open(cp, "w"))
